@@ -2,6 +2,6 @@
    Only ExtrOcamlBasic's directives are used; N, Z, positive, nat stay the
    extracted inductive types. *)
 From Coq Require Extraction ExtrOcamlBasic.
-From Econf Require Import Scenario Grammar.
+From Econf Require Import Scenario Grammar LayeredScenario.
 Extraction Language OCaml.
-Extraction "model.ml" step run err_code all_errs render wf_file agrees expected keyfile_of_read.
+Extraction "model.ml" step run wstep world0 err_code all_errs render wf_file agrees expected keyfile_of_read.
